@@ -502,10 +502,4 @@ def Admissible (toks : List Tok) (kw : Kw) : Prop :=
 
 instance (toks : List Tok) (kw : Kw) : Decidable (Admissible toks kw) := by unfold Admissible; infer_instance
 
-/-- the remainder's text has no line feed (recorded finding F-C01b / F-C06a: `*name` is compiled to `.*?`) -/
-def restNoLF (kw : Kw) : List Tok → Bool
-  | [] => true
-  | .rest n :: ts => (match (kw.lookup n).bind restText with | some t => !t.contains '\n' | none => true) && restNoLF kw ts
-  | _ :: ts => restNoLF kw ts
-
 end Pyr.UrlGen
